@@ -3,7 +3,17 @@ import itertools
 
 ID = "C14"
 HARNESSES = [dict(name="subscriber", pkg="./pkg/config/subscriber/", test="TestVerifC14", timeout=1500,
-                  files=[("pkg/config/subscriber/zz_verif_c14_test.go", "harness/C14/zz_verif_c14_test.go")])]
+                  files=[("pkg/config/subscriber/zz_verif_c14_test.go", "harness/C14/zz_verif_c14_test.go")]),
+             dict(name="l2gw", pkg="./internal/l2gw/", test="TestVerifC14L2GW", timeout=600,
+                  files=[("internal/l2gw/zz_verif_c14_l2gw_test.go", "harness/C14/zz_verif_c14_l2gw_test.go")])]
+# repaired: the l2gw trigger authenticates a pair with the AAA policy of the range it is classified to;
+# defective: /repo HEAD rescans the matched group by S-VLAN only (Group.GetPolicyName)
+VARIANTS = ["repaired", "defective"]
+
+
+def route(case):
+    return "l2gw" if case.startswith("l2gw ") else "subscriber"
+
 RULE = ("parse/cvlan: every string of length <= L (3 quick, 4 thorough) over a 16-symbol alphabet (digits 0 1 4 9, '-', "
         "space, tab, U+00A0, U+2003, U+1680, U+200B (not a space), 'a', 'n', 'y', 'Y', '+'), structured boundary strings, "
         "every one of the 25 unicode.IsSpace code points and 40 near-misses in 9+7 positions, random strings; "
@@ -13,7 +23,7 @@ RULE = ("parse/cvlan: every string of length <= L (3 quick, 4 thorough) over a 1
         "S-VLANs x 9 C-VLANs with 3 rebuilds; sweep: random configurations with wide ranges, ALL 4096x4096 pairs looked "
         "up in the harness and compared there with a quadratic reference written in the harness, digest of the whole "
         "table compared with the digest the model computes from ref_lookup over the classes of "
-        "C14_lookup_class_invariant (12 quick / 400 thorough), plus dense sweeps (2 quick / 64 thorough) that together make every S-VLAN and every C-VLAN value an exact index key. Non-trivial: parse case that is accepted, cfg/sweep "
+        "C14_lookup_class_invariant (12 quick / 400 thorough), plus dense sweeps (2 quick / 64 thorough) that together make every S-VLAN and every C-VLAN value an exact index key. l2gw: random configurations with AAA policies on groups and ranges, 45 pairs each pushed through the real internal/l2gw handleTrigger, the published AAA request's group and policy compared with the matched range's (200 quick / 3000 thorough). Non-trivial: parse case that is accepted, cfg/sweep/l2gw "
         "case with at least one match and one miss. Distinct: by case text.")
 TRUSTED = ["strings are modelled as lists of Unicode code points; invalid UTF-8 input is outside the model",
            "strings.ToLower is modelled on ASCII only (no other rune lower-cases to a, n or y: checked for every code "
@@ -160,6 +170,18 @@ def gen_cases(rng, tier, budget):
                 groups.append((enc(n), [(enc(rng.choice(svs)), enc(rng.choice(cvs)))
                                         for _ in range(rng.randint(0, 3))]))
         cases.append(cfg_line("cfg", groups, QS))
+    # consumer: l2gw trigger -> AAA request (group name + AAA policy of the pair)
+    nl = 200 if tier == "quick" else 3000
+    lsv = ["10", "10-12", "11", "12", "9-10", "100", "x", "4094", "10 - 11", "11-20"]
+    lcv = ["", "any", "10", "20", "100", "0", "x", " 10", "ANY"]
+    pols = ["", "", "P", "Q", "R", "p q"]
+    lqs = [(s_, c_) for s_ in (0, 9, 10, 11, 12, 13, 20, 100, 4094) for c_ in (0, 1, 10, 20, 100)]
+    for i in range(nl):
+        groups = []
+        for n in rng.sample(NAMES, rng.randint(1, 4)):
+            rs = [(enc(rng.choice(lsv)), enc(rng.choice(lcv)), enc(rng.choice(pols))) for _ in range(rng.randint(0, 4))]
+            groups.append((enc(n), enc(rng.choice(pols)), rs))
+        cases.append(l2gw_line(groups, lqs))
     # exhaustive 4096 x 4096 sweeps
     nsw = 12 if tier == "quick" else 400
     ends = [1, 2, 3, 100, 101, 255, 256, 2047, 2048, 4000, 4093, 4094]
@@ -200,8 +222,52 @@ def _kv(s):
     return dict(x.split("=", 1) for x in s.split() if "=" in x)
 
 
+def l2gw_line(groups, qs):
+    toks = ["l2gw", str(len(groups))]
+    for n, gp, rs in groups:
+        toks += [n, gp, str(len(rs))]
+        for a, b, c in rs:
+            toks += [a, b, c]
+    toks.append(str(len(qs)))
+    for a, b in qs:
+        toks += [str(a), str(b)]
+    return " ".join(toks)
+
+
+def parse_l2gw(t):
+    ng = int(t[1])
+    p = 2
+    groups = []
+    for _ in range(ng):
+        n, gp, nr = t[p], t[p + 1], int(t[p + 2])
+        p += 3
+        rs = [(t[p + 3 * j], t[p + 3 * j + 1], t[p + 3 * j + 2]) for j in range(nr)]
+        p += 3 * nr
+        groups.append((n, gp, rs))
+    nq = int(t[p])
+    qs = [(t[p + 1 + 2 * j], t[p + 2 + 2 * j]) for j in range(nq)]
+    return groups, qs
+
+
+def signature(case, impl, models):
+    """impl matches only 'defective': some pair is authenticated by the l2gw trigger with the policy of another range
+    of the right group (same group name in every answer, policy differs)."""
+    if not case.startswith("l2gw "):
+        return None
+    a, b = impl.split(), models["repaired"].split()
+    if len(a) != len(b):
+        return None
+    for x, y in zip(a, b):
+        if x != y and (":" not in x or ":" not in y or x.split(":")[0] != y.split(":")[0]):
+            return None
+    return "l2gw-trigger:aaa-policy-by-svlan-rescan"
+
+
 def nontrivial(case, out):
     k = case.split(" ", 1)[0]
+    if k == "l2gw":
+        r = out.split()
+        return "none" in r and any(x != "none" for x in r)
     if k in ("cfg", "cfgnil"):
         r = _split(out)[1].split()
         return "none" in r and any(x != "none" for x in r)
@@ -215,6 +281,11 @@ def nontrivial(case, out):
 
 def classify(case, impl, model):
     k = case.split(" ", 1)[0]
+    if k == "l2gw":
+        a, b = impl.split(), model.split()
+        d = [i for i, (x, y) in enumerate(zip(a, b)) if x != y]
+        return "P", ("l2gw trigger authenticates a pair with a group / AAA policy other than that of the range the pair is "
+                     "classified to, query #%s: impl=%s model=%s" % (d[:3], [a[i] for i in d[:3]], [b[i] for i in d[:3]]))
     if k in ("cfg", "cfgnil"):
         iv, ir = _split(impl)
         mv, mr = _split(model)
@@ -261,6 +332,19 @@ def shrink(case):
         return
     if t[0] == "cfgnil":
         return
+    if t[0] == "l2gw":
+        groups, qs = parse_l2gw(t)
+        for i in range(len(groups)):
+            yield l2gw_line(groups[:i] + groups[i + 1:], qs)
+        for i, (n, gp, rs) in enumerate(groups):
+            for j in range(len(rs)):
+                yield l2gw_line(groups[:i] + [(n, gp, rs[:j] + rs[j + 1:])] + groups[i + 1:], qs)
+        if len(qs) > 1:
+            yield l2gw_line(groups, qs[:len(qs) // 2])
+            yield l2gw_line(groups, qs[len(qs) // 2:])
+            for i in range(len(qs)):
+                yield l2gw_line(groups, [qs[i]])
+        return
     groups, qs = parse_cfg(t)
     for i in range(len(groups)):
         yield cfg_line(t[0], groups[:i] + groups[i + 1:], qs)
@@ -282,12 +366,22 @@ def shrink(case):
 def distribution(cases, impl):
     d = {"parse": 0, "parse_ok": 0, "cvlan": 0, "cvlan_ok": 0, "cfg": 0, "cfg_rejected": 0, "lookup_hits": 0,
          "lookup_misses": 0, "cfgnil": 0, "sweep": 0, "sweep_pairs": 0, "sweep_hits": 0, "sweep_rejected": 0,
-         "sweep_rowruns_max": 0, "runes": 0, "runes_code_points": 0}
+         "sweep_rowruns_max": 0, "runes": 0, "runes_code_points": 0, "l2gw": 0, "l2gw_requests": 0, "l2gw_no_request": 0,
+         "l2gw_range_policy": 0, "l2gw_group_policy_or_none": 0}
     seen = set()
     for c, o in zip(cases, impl):
         k = c.split(" ", 1)[0]
         d[k] += 1
-        if k in ("cfg", "cfgnil"):
+        if k == "l2gw":
+            r = o.split()
+            d["l2gw_no_request"] += r.count("none")
+            d["l2gw_requests"] += len(r) - r.count("none")
+            gp = {g[0]: g[1] for g in parse_l2gw(c.split())[0]}
+            for x in r:
+                if ":" in x:
+                    n, pol = x.split(":")
+                    d["l2gw_range_policy" if pol != gp.get(n) else "l2gw_group_policy_or_none"] += 1
+        elif k in ("cfg", "cfgnil"):
             v, r = _split(o)
             d["cfg_rejected"] += v.startswith("rejected")
             r = r.split()
